@@ -162,6 +162,18 @@ def optimiser_part(ck, tier):
                     acq_ok = bool(abs(float(opt.acquisition(xq)) - want_u) <= 1e-9 * (1 + abs(want_u)) and
                                   abs(float(opt.acquisition.opt_func(xq)) + want_u) <= 1e-9 * (1 + abs(want_u)) and
                                   abs(float(opt.acquisition.opt_func_gradient(xq)[0]) + want_u) <= 1e-9 * (1 + abs(want_u)))
+                    # kappa changed on the optimiser's acquisition object after construction (a schedule): value, objective and the GRADIENT
+                    # are those of a fresh object built with the new kappa on the same model; then the original kappa again
+                    k_old = opt.acquisition.kappa
+                    for k_new in (0.75, 0.0, 5.0):
+                        opt.acquisition.kappa = k_new
+                        fresh_a = UpperConfidenceBound(kappa=k_new)
+                        fresh_a.update_gp(opt.gp)
+                        v1, g1 = opt.acquisition.opt_func_gradient(xq)
+                        v2, g2 = fresh_a.opt_func_gradient(xq)
+                        acq_ok = acq_ok and bool(float(v1) == float(v2) and np.array_equal(np.asarray(g1, dtype=float), np.asarray(g2, dtype=float))
+                                                 and float(opt.acquisition(xq)) == float(fresh_a(xq)) and float(opt.acquisition.opt_func(xq)) == float(fresh_a.opt_func(xq)))
+                    opt.acquisition.kappa = k_old
                 evs = [{"ev": "Init", "ys": [int(v) for v in y0], "n": int(len(opt.y)), "gp_n": int(opt.gp.y.size), "acq_ok": acq_ok,
                         "mu_max": int(round(float(opt.acquisition.mu_max))), "caller_unchanged": unchanged()}]
                 last_prop = None
@@ -185,7 +197,9 @@ def optimiser_part(ck, tier):
                                     "errs_aligned": bool(np.array_equal(np.asarray(opt.y_err, dtype=float), np.append(errs_before, 0.15))
                                                          and np.allclose(np.sqrt(np.diag(np.atleast_2d(opt.gp.sig))) if np.ndim(opt.gp.sig) == 2 else opt.gp.sig,
                                                                          np.append(errs_before, 0.15))),
-                                    "mu_max": int(round(float(opt.acquisition.mu_max))),
+                                    # (the incumbent as the acquisition holds it and, where the optimiser keeps its own copy, as the optimiser holds it)
+                                    "mu_max": int(round(float(opt.acquisition.mu_max))) if float(getattr(opt, "mu_max", opt.acquisition.mu_max)) == float(opt.acquisition.mu_max)
+                                    else -999999,
                                     "caller_unchanged": unchanged(((nx, kx), (ny, ky), (ne, ke)))})
                 # data given as an INTEGER array, then a fractional evaluation added as a plain number: recorded in quarter units
                 if hi % 4 == 1:
